@@ -930,6 +930,15 @@ REGRESS = [
     ('struct S36 { unsigned s[8]; } r36 = { U"abcde", .s[6] = 1, .s[7] = 2 };', 'r36', None),
     ('struct S37 { unsigned short s[6]; } r37 = { u"ab", .s[3] = 7 };', 'r37', None),
     ('struct S38 { char s[6]; } r38 = { "a", .s[2] = 1, .s[3] = 2, .s[4] = 3 };', 'r38', None),
+    # wide arrays longer than their string literal: the zero padding is counted in bytes; the members after them keep their offsets
+    ('unsigned r39[8] = U"ab";', 'r39', None),
+    ('struct S40 { unsigned s[4]; int n; } r40 = { U"q", 77 };', 'r40', None),
+    ('unsigned short r41[5] = u"abc";', 'r41', None),
+    # wide literals with more elements than the array (the terminator does not fit, or not even all characters: 6.7.9p14 allows the first; gcc truncates both)
+    ('unsigned short r43[3] = u"abc";', 'r43', None),
+    ('struct S44 { unsigned short tag[2]; int n; } r44 = { u"xy", 7 };', 'r44', None),
+    # an initializer belongs to its own declarator only
+    ('_Thread_local int r42a = 7, r42; int r45a = 3, r45, r46 = 4;', 'r42', None),
     # objects declared before their type is complete: image, size and alignment of the completed type
     ('struct L17 r17; struct L17 { long a; char c; }; struct L17 r17 = { 5, 6 };', 'r17', None),
     ('union L18 r18; union L18 { char c[3]; int i; };', 'r18', None),
